@@ -94,7 +94,7 @@ def _to_int(ctx):
     rep, world = ctx.report, ctx.world
     f = world.func(MOD, 'convert_version_to_int')
     rep.analysed('versionutils.convert_version_to_int')
-    for n in ((1, 2, 3, 4, 5) if ctx.thorough else (1, 2, 3, 4)):
+    for n in (1, 2, 3, 4, 5):
         comps = [T('sym', 'c%d' % i) for i in range(n)]
 
         def thunk(interp):
@@ -171,14 +171,15 @@ def _to_str(ctx):
     def setup(interp):
         interp.types[v] = 'int'
     old = world.loop_bound
-    world.loop_bound = 7 if ctx.thorough else 5
+    world.loop_bound = 7
     try:
         outcomes, _i = extract(world, thunk, setup=setup)
     finally:
         world.loop_bound = old
     grid = (1, 9, 999, 1000, 1001, 1999, 2000, 999999, 1000000, 1000001,
             1000999, 1001000, 999999999, 1000000000, 6007000, 1000000001,
-            123045067, 999000999)
+            123045067, 999000999, 1000 ** 4, 1000 ** 4 + 1, 999 * 1000 ** 4,
+            5004003002001, 1000 ** 5 - 1)
     if ctx.thorough:
         grid += tuple(a * 1000 ** k + b for k in (1, 2, 3, 4, 5)
                       for a in (1, 9, 10, 99, 100, 999)
